@@ -11,5 +11,5 @@ for name in ("sock-connect-per-address", "pool-cowaiter-lost-wakeup"):
 # expected on the unchanged tree:
 #  sock-connect-per-address: sock_connect=2 s, lookup answered at 5 ms with 2 addresses, both stalled
 #      -> r=E_CONN_TIMEOUT at 4005 ms (2 x 2000 after the lookup), attempts at [5, 2005]
-#  pool-cowaiter-lost-wakeup: limit=1; holder releases at 2250 ms (wakes R), R cancelled before it runs
-#      -> r=E_CANCELLED, acquired=0 (slot free) but c=pending, waiters=1: the co-request is never woken
+#  pool-cowaiter-lost-wakeup (F8, fixed in the repository since): limit=1; holder releases at 2250 ms (wakes R), R cancelled before it runs
+#      -> before the fix: c=pending, waiters=1 with a free slot; after it: c=ok, waiters=0
